@@ -52,6 +52,7 @@ TOKENS = [
     ("sarif", "dup", ["--sarif", "{res}/semgrep.sarif,{res}/merged.sarif"]),
     ("sarif", "two", ["--sarif", "{res}/merged.sarif"]),
     ("unser", "projname", ["--project-name", "caf\udce9"]),                    # os.fsdecode(b"caf\xe9"): what a non-UTF-8 argv byte becomes
+    ("flag", "badline", ["--path-exclude", "x.py:abc"]),   # a pattern whose suffix is not a line number: it names nothing
     ("flag", "dry", ["--dry-run"]),
     ("flag", "workers", ["--max-workers", "2"]),
     ("flag", "pathinc", ["--path-include", "*.py"]),
@@ -96,9 +97,11 @@ def _concrete(sid: str, toks: list[int], env: str, pool, pick: int) -> dict:
     for i in toks:
         argv += pool[i - 1][2]
     envs = ENVS[env]
+    # with a single cheap codemod selected the project holds a file, so that file matching and the path patterns are exercised
+    files = {"x.py": "a = 1\n"} if any(pool[i - 1][0] == "incl" for i in toks) else {}
     return {
         "id": sid,
-        "files": {},
+        "files": files,
         "resfiles": RESFILES,
         "steps": [{"argv": argv, "env": envs[pick % len(envs)]}],
     }
@@ -112,6 +115,11 @@ def run(chk: Check) -> None:
     for _ in range(chk.pick(120, 1500)):
         k = chk.rng.choice([3, 3, 4, 5])
         extra.add(tuple(chk.rng.randrange(1, n_main + 1) for _ in range(k)))
+    i_incl = next(i + 1 for i, t in enumerate(TOKENS) if t[0] == "incl")
+    i_out = next(i + 1 for i, t in enumerate(TOKENS) if t[:2] == ("output", "ok"))
+    for i, t in enumerate(TOKENS):
+        if t[0] == "flag":
+            extra.add((1, i_incl, i + 1, i_out))
     for j in (n_main + 1, n_main + 2):
         extra.add((j,))
         extra.add((1, j))
